@@ -43,95 +43,17 @@ def _loop_chain(func_node, call):
 @rule(
     "PERM-AXIS",
     ["C03", "C08"],
-    "in build_optimized_tables every permute_quadrature_* call sits in loops whose variables are bound (through "
-    "the callee's signature) to `rotations` (outer loop, range 3 for triangles / 4 for quadrilaterals) and "
-    "`reflections` (inner loop, range 2), appended in loop order and stacked with vstack, so that stack "
-    "index N = 2*rotations + reflections; the point maps apply `rotations` rotations and `reflections` "
-    "reflections; the permutation axis is dropped only if is_permuted_table finds all slices equal",
+    "the quadrature point maps permute_quadrature_interval / _triangle / _quadrilateral, interpreted on sample points for every "
+    "(reflections, rotations), are the reference-facet symmetries: `rotations` rotations first, then `reflections` reflections; "
+    "the caller's points are not modified; defaults are the identity (which slice holds which symmetry: GEN-TABLES)",
     min_instances=10,
 )
 def perm_axis(repo, res):
     m = repo.mod(ET)
     f = m.func("build_optimized_tables")
     res.functions.add(f.key)
-    want = {"permute_quadrature_interval": (None, 2), "permute_quadrature_triangle": (3, 2), "permute_quadrature_quadrilateral": (4, 2)}
-    seen = 0
-    # local aliases of the point maps (`permute = permute_quadrature_triangle` chosen per cell type, then one shared loop nest)
-    aliases: dict[str, set[str]] = {}
-    for n in ast.walk(f.node):
-        if isinstance(n, ast.Assign) and len(n.targets) == 1 and isinstance(n.targets[0], ast.Name) and isinstance(n.value, ast.Name) and n.value.id in want:
-            aliases.setdefault(n.targets[0].id, set()).add(n.value.id)
-    sites = []
-    for c in calls_in(f.node):
-        nm = call_name(c) or ""
-        if nm in want:
-            sites.append((c, nm))
-        elif nm in aliases:
-            for tgt in sorted(aliases[nm]):
-                sites.append((c, tgt))
-    for c, nm in sites:
-        seen += 1
-        callee = m.func(nm)
-        params = callee.params
-        bound = {}
-        for i, a in enumerate(c.args):
-            if i < len(params):
-                bound[params[i]] = a
-        for k in c.keywords:
-            bound[k.arg] = k.value
-        chain = _loop_chain(f.node, c)
-        key = f"{f.key}:{nm}:binding:{seen}"
-        res.ob(key)
-        nrot, nref = want[nm]
-        ref = bound.get("reflections")
-        rot = bound.get("rotations")
-        names = [v for v, _k, _n in chain]
-        if ref is None or not isinstance(ref, ast.Name) or ref.id not in names:
-            res.fail(key, f"{nm}: the `reflections` argument is `{ast.unparse(ref) if ref is not None else 'missing'}`, not a loop variable", m.line(c))
-            continue
-        iref = names.index(ref.id)
-        if chain[iref][1] != nref:
-            res.fail(key, f"{nm}: reflections range over {chain[iref][1]} values, expected 2", m.line(c))
-        if nrot is None:
-            if rot is not None:
-                res.fail(key, f"{nm}: unexpected rotations argument", m.line(c))
-            if iref != len(chain) - 1:
-                res.fail(key, f"{nm}: the reflection loop is not the innermost loop", m.line(c))
-            continue
-        if rot is None or not isinstance(rot, ast.Name) or rot.id not in names:
-            res.fail(key, f"{nm}: the `rotations` argument is `{ast.unparse(rot) if rot is not None else 'missing'}`, not a loop variable", m.line(c))
-            continue
-        irot = names.index(rot.id)
-        if chain[irot][1] != nrot:
-            res.fail(key, f"{nm}: rotations range over {chain[irot][1]} values, expected {nrot} (the facet has {nrot} vertices)", m.line(c))
-        if not (irot < iref and iref == len(chain) - 1):
-            res.fail(key, f"{nm}: loop nest order is {names}; stack index N must be 2*rotations + reflections "
-                     "(rotations outer, reflections inner): quadrature_permutation = N would select another permutation", m.line(c))
-        # appended in loop order to one list that is then stacked
-        inner = chain[-1][2]
-        apps = [x for x in calls_in(inner) if isinstance(x.func, ast.Attribute) and x.func.attr == "append" and any(y is c for y in ast.walk(x))]
-        key2 = f"{f.key}:{nm}:stacking:{seen}"
-        res.ob(key2)
-        if len(apps) != 1:
-            res.fail(key2, f"{nm}: permuted tables are not appended one by one in loop order", m.line(c))
-    if seen < 4:
-        raise AnalysisError(f"only {seen} permute_quadrature_* call sites found in build_optimized_tables (4 confirmed)")
-    res.notes.append(f"{seen} (call site, point map) pairs; aliases: {({k: sorted(v) for k, v in aliases.items()})}")
-    src = ast.unparse(f.node)
-    key = f"{f.key}:vstack"
-    res.ob(key)
-    n_stack = len(re.findall(r"t\['array'\] = np\.vstack\(\[td\['array'\] for td in new_table\]\)", src))
-    n_call_nodes = len({id(c) for c, _nm in sites})
-    if n_stack < n_call_nodes or "t = new_table[0]" not in src:
-        res.fail(key, "permuted tables are not stacked along the first axis in list order", m.line(f.node))
-    # axis dropped only under `not is_permuted`
-    key = f"{f.key}:axis-drop"
-    res.ob(key)
-    mm = re.search(r"(\w+) = is_permuted_table\((\w+)\)\n\s+if not \1:\n\s+(\w+) = \3\[:1, :, :, :\]", src)
-    if not mm or mm.group(2) != mm.group(3):
-        res.fail(key, "the permutation axis is not reduced exactly when is_permuted_table(table) is false", m.line(f.node))
-    elif f"is_permuted={mm.group(1)}" not in src:
-        res.fail(key, "the table reference's is_permuted flag is not the result of is_permuted_table", m.line(f.node))
+    # which permutations are tabulated into which slice, stacking order and when the axis is dropped: rule GEN-TABLES
+    # (build_optimized_tables interpreted with a table oracle that records the points it is handed)
     # is_permuted_table: slices compared over full axes - rule TABLE-INDEX
     # point maps: interpreted on sample points for every (rotations, reflections) the table builder uses
     from fractions import Fraction as Fr
@@ -581,15 +503,7 @@ def table_index(repo, res):
                 res.fail(key, f"{name} on the sample `{label}` {t.shape} gives {got!r}, the definition gives {want!r}: {why[name]}"
                          + (" (e.g. d/dX0 on quadrilateral facets is constant on facet 0 only)" if "only" in label else ""), et.line(g.node))
                 break
-    # reductions
-    b = et.func("build_optimized_tables")
-    res.functions.add(b.key)
-    src = ast.unparse(b.node)
-    for flag, sl, what in ((r"if (\w+) in piecewise_ttypes:", r"\[:, :, :1, :\]", "point"), (r"if (\w+) in uniform_ttypes:", r"\[:, :1, :, :\]", "entity")):
-        key = f"{b.key}:reduce-{what}-axis"
-        res.ob(key)
-        if not re.search(flag + r"\n\s+(\w+) = \2" + sl, src):
-            res.fail(key, f"the {what} axis is not collapsed exactly under its table-type class", et.line(b.node))
+    # which axes build_optimized_tables collapses for which class: rule GEN-TABLES (function interpreted with a table oracle)
     key = f"{et.name}:ttype-classes"
     res.ob(key)
     consts = {}
